@@ -1,7 +1,11 @@
 """C15 Stored job specs and region sets round-trip — correspondence of SpecFormat.dbSpec / get* / regionsToBits / bitsToRegions
 with the real batch.batch_format_version.BatchFormatVersion and batch.utils.regions_to_bits_rep / regions_bits_rep_to_regions."""
+import asyncio
 import itertools
 import json
+import logging
+import os
+import random
 
 from .. import loader
 from ..framework import MachineryError, Prop
@@ -63,7 +67,11 @@ class C15(Prop):
             'selection): all subsets of a 10-region mapping and of every smaller mapping size, random subsets (random order, repetitions) of '
             'mappings of up to 63 regions, plus a few out-of-contract mappings (index 0, 64, unknown region, shared index) where only the '
             'correspondence with the model is checked. non-trivial = spec with a secret, service account, files or machine type / non-empty '
-            'selection; distinct by case')
+            'selection; distinct by case. bunch case = 1-6 client job specs of mixed shapes (with / without `regions`, secrets, service account, '
+            'mount_tokens, input / output files, machine types, preemptible) submitted as ONE bunch through the real validate_and_clean_jobs + '
+            'front_end._create_jobs over minisql into a batch of format version 1..current; observed per job: the jobs row (n_regions, '
+            'regions_bits_rep decoded with the real decoder, compact spec through the real getters) and the full spec the front end stored; '
+            'oracle: every stored job is checked against ITS OWN submitted spec (a job without `regions` is stored NULL whatever precedes it)')
     trusted = ['strings in generated specs are restricted to the Basic Multilingual Plane (the Lean JSON reader of the driver does not join '
                'surrogate pairs)']
     assumptions = ['specs reaching db_spec have the shape the job validator and front_end.create_jobs produce (resources is a dict with '
@@ -83,6 +91,8 @@ class C15(Prop):
         self.validate = validate
         self.ValidationError = ValidationError
         self.n_user_validated = 0
+        self.repo = repo
+        self._w = None
 
     # ---- spec generation ------------------------------------------------------------------------------
     def _user_spec(self, rng):
@@ -225,9 +235,155 @@ class C15(Prop):
         yield from self._bits_cases(rng, 600 if tier == 'quick' else 20000, tier)
         for _ in range(n):
             yield self._spec_case(rng)
+        for _ in range(400 if tier == 'quick' else 6000):
+            yield self._bunch_case(rng)
+
+    # ---- bunches through the real front end (_create_jobs over minisql) -----------------------------------------------
+    REGIONS = [['us-central1', 1], ['us-east1', 2], ['europe-west1', 3], ['asia-east1', 4], ['us-west4', 9], ['me-central2', 32],
+               ['au-south1', 62], ['far-away9', 63]]
+    GCP_MACHINES = ['n1-standard-1', 'n1-standard-8', 'n1-highmem-2', 'n1-highcpu-4']
+
+    def _bunch_job(self, rng, i, user, shape):
+        """one client job spec (relative job id i); `shape` biases the region preference of the whole bunch"""
+        s = {'job_id': i, 'in_update_parent_ids': [], 'absolute_parent_ids': [], 'always_run': rng.random() < 0.1,
+             'process': {'type': 'docker', 'image': 'ubuntu:22.04', 'command': ['true'], 'mount_docker_socket': False},
+             'absolute_job_group_id': 0}
+        names = [r for r, _ in self.REGIONS]
+        p_regions = {'none': 0.0, 'all': 1.0, 'mixed': 0.5}[shape]
+        if rng.random() < p_regions:
+            k = rng.choice([1, 1, 2, 3, len(names)])
+            sel = rng.sample(names, k)
+            if rng.random() < 0.1:
+                sel.append(sel[0])
+            s['regions'] = sel
+        res = {}
+        if rng.random() < 0.25:
+            res['machine_type'] = rng.choice(self.GCP_MACHINES)
+            if rng.random() < 0.5:
+                res['preemptible'] = rng.random() < 0.5
+            if rng.random() < 0.5:
+                res['storage'] = rng.choice(['10Gi', '375Gi', '20G'])
+        else:
+            res['cpu'] = rng.choice(['1', '0.25', '2', '500m'])
+            res['memory'] = rng.choice(['standard', 'highmem', 'lowmem'])     # a worker type: pool chosen without the price tables
+            res['storage'] = rng.choice(['0', '5Gi', '1Gi'])
+            if rng.random() < 0.2:
+                res['preemptible'] = True                                     # the seeded pools are preemptible
+        s['resources'] = res
+        for key in ('input_files', 'output_files'):
+            r = rng.random()
+            if r < 0.25:
+                s[key] = [{'from': 'gs://b/' + rng.choice(K8S), 'to': '/io/' + rng.choice(K8S)} for _ in range(rng.choice([1, 2]))]
+            elif r < 0.35:
+                s[key] = []
+        if user == 'ci':
+            if rng.random() < 0.4:
+                s['secrets'] = [{'namespace': rng.choice(K8S), 'name': rng.choice(K8S), 'mount_path': rng.choice(PATHS)}
+                                for _ in range(rng.choice([1, 1, 2]))]
+            if rng.random() < 0.3:
+                s['service_account'] = {'namespace': 'default', 'name': rng.choice(['ci-agent', 'admin'])}
+            if rng.random() < 0.15:
+                s['mount_tokens'] = True
+        if rng.random() < 0.3:
+            s['attributes'] = {'name': f'job{i}'}
+        return s
+
+    def _bunch_case(self, rng):
+        user = rng.choice(['u1', 'ci', 'ci'])
+        shape = rng.choice(['mixed', 'mixed', 'mixed', 'none', 'all'])
+        n = rng.choice([1, 2, 2, 3, 4, 6])
+        jobs = [self._bunch_job(rng, i, user, shape) for i in range(1, n + 1)]
+        r = rng.random()
+        if r < 0.04:
+            jobs[rng.randrange(n)]['regions'] = []                           # rejected: empty list
+        elif r < 0.08:
+            jobs[rng.randrange(n)]['regions'] = ['us-east1', 'nowhere-1']    # rejected: unknown region
+        v = self.current if rng.random() < 0.6 else rng.randint(1, self.current)
+        return {'k': 'bunch', 'user': user, 'v': v, 'jobs': jobs}
+
+    def _world(self):
+        if getattr(self, '_w', None) is not None:
+            return self._w
+        os.environ['HAIL_VERIF_REPO'] = self.repo
+        from harness.minisql import batchapp
+        loop = asyncio.new_event_loop()
+        logging.disable(logging.CRITICAL)
+        try:
+            db = batchapp.seeded_db(random.Random(0), clock=lambda: 1700000000.0, repo=self.repo, users=('u1', 'ci'))
+            have = {r['region'] for r in db.tables['regions']}
+            db.load_rows('regions', [{'region': r, 'region_id': i} for r, i in self.REGIONS if r not in have])
+            app = loop.run_until_complete(batchapp.make_app(db))
+            from harness import svcenv
+            svcenv.prepare()          # the global-config secret read by possible_cloud_locations (pool selection by price)
+        finally:
+            logging.disable(logging.NOTSET)
+        import batch.front_end.front_end as fe
+        mapping = sorted(([r, i] for r, i in app['regions'].items()), key=lambda p: p[1])
+        if mapping != sorted(self.REGIONS, key=lambda p: p[1]):
+            raise MachineryError(f'seeded regions table differs from the plan: {mapping}')
+        self._w = {'loop': loop, 'db': db, 'app': app, 'fe': fe, 'batchapp': batchapp, 'snap': db.snapshot(),
+                   'mapping': [[r, i] for r, i in app['regions'].items()]}
+        return self._w
+
+    def _play(self, c):
+        """validate_and_clean_jobs + _create_jobs on one bunch in a fresh batch of format version c['v'];
+        -> {'rejected': reason} | {'rows': [jobs rows], 'fulls': [the full spec the front end stored for each job]}"""
+        key = json.dumps(c, sort_keys=True)
+        if getattr(self, '_play_key', None) == key:
+            return self._play_val
+        w = self._world()
+        db, app, fe, ba = w['db'], w['app'], w['fe'], w['batchapp']
+        db.restore(w['snap'])
+        app['file_store'].specs.clear()
+        userdata = dict(ba.USERDATA)
+        userdata['username'] = c['user']
+        specs = json.loads(json.dumps(c['jobs']))
+
+        async def go():
+            from aiohttp import web
+            bid = await fe._create_batch({'billing_project': ba.BILLING_PROJECT, 'token': 'tok', 'n_jobs': len(specs)}, userdata, app['db'])
+            for r in db.tables['batches']:
+                if r['id'] == bid:
+                    r['format_version'] = c['v']
+            upd = await fe._create_batch_update(bid, 'utok', len(specs), 0, c['user'], app['db'])
+            try:
+                self.validate.validate_and_clean_jobs(specs)
+                await fe._create_jobs(userdata, specs, bid, upd[0], app)
+            except self.ValidationError as e:
+                return {'rejected': 'validator: ' + str(e.reason)}
+            except web.HTTPBadRequest as e:
+                return {'rejected': str(e.reason or e.text)}
+            rows = sorted((dict(r) for r in db.tables['jobs'] if r['batch_id'] == bid), key=lambda r: r['job_id'])
+            fulls = []
+            stored = [v for (b, _tok), v in app['file_store'].specs.items() if b == bid]
+            if stored:
+                data, offsets = stored[0]
+                offs = [int.from_bytes(offsets[8 * k:8 * k + 8], 'little') for k in range(len(offsets) // 8)]
+                fulls = [json.loads(data[a:b].decode()) for a, b in zip(offs, offs[1:])]
+            return {'rows': rows, 'fulls': fulls}
+
+        logging.disable(logging.CRITICAL)
+        try:
+            val = w['loop'].run_until_complete(go())
+        finally:
+            logging.disable(logging.NOTSET)
+        self._play_key, self._play_val = key, val
+        return val
+
+    def _bunch_fulls(self, c, played):
+        """the full spec of every job: the spec file (formats >= 2) or the row itself (format 1)"""
+        if c['v'] == 1:
+            return [json.loads(r['spec']) for r in played['rows']]
+        return played['fulls']
 
     # ---- model / implementation ---------------------------------------------------------------------------
     def model_lines(self, c):
+        if c['k'] == 'bunch':
+            played = self._play(c)
+            lines = [f'bunch {wire(self._world()["mapping"])} {wire([j.get("regions") for j in c["jobs"]])}']
+            if 'rejected' not in played:
+                lines += [f'spec {c["v"]} {wire(full)}' for full in self._bunch_fulls(c, played)]
+            return lines
         if c['k'] == 'spec':
             js = wire(c['spec'])
             return [f'spec {v} {js}' for v in c['versions']]
@@ -255,6 +411,33 @@ class C15(Prop):
         return out
 
     def impl(self, c):
+        if c['k'] == 'bunch':
+            played = self._play(c)
+            if 'rejected' in played:
+                return ['rejected']
+            w = self._world()
+            bfv = self.BFV(c['v'])
+            parts = []
+            lines = []
+            for row in played['rows']:
+                try:
+                    dec = canon(self.utils.regions_bits_rep_to_regions(row['regions_bits_rep'], w['app']['regions']))
+                except self.ERRS:
+                    dec = 'err'
+
+                def o(x):
+                    return '-' if x is None else str(x)
+                parts.append(f"{o(row['n_regions'])}/{o(row['regions_bits_rep'])}/{dec}")
+                db = json.loads(row['spec'])
+                out = {'db': canon(db)}
+                for key, fn in (('secrets', bfv.get_spec_secrets), ('sa', bfv.get_spec_service_account), ('in', bfv.get_spec_has_input_files),
+                                ('out', bfv.get_spec_has_output_files), ('ms', bfv.get_spec_machine_spec)):
+                    try:
+                        out[key] = canon(fn(db))
+                    except self.ERRS:
+                        out[key] = 'err'
+                lines.append(' '.join(f'{k}={out[k]}' for k in ('db', 'secrets', 'sa', 'in', 'out', 'ms')))
+            return [';'.join(parts)] + lines
         if c['k'] == 'spec':
             lines = []
             for v in c['versions']:
@@ -296,9 +479,71 @@ class C15(Prop):
     NAMES = {'secrets': 'get_spec_secrets', 'sa': 'get_spec_service_account', 'in': 'get_spec_has_input_files',
              'out': 'get_spec_has_output_files', 'ms': 'get_spec_machine_spec'}
 
+    def _oracle_bunch(self, c, out):
+        """every stored job is checked against ITS OWN submitted spec"""
+        jobs = c['jobs']
+        names = [r for r, _ in self.REGIONS]
+        must_reject = any(j.get('regions') is not None and (len(j['regions']) == 0 or any(r not in names for r in j['regions']))
+                          for j in jobs)
+        played = self._play(c)
+        if out[0] == 'rejected':
+            return None if must_reject else f'a valid bunch was rejected: {played.get("rejected")}'
+        if must_reject:
+            return 'a bunch with an empty or unknown region selection was accepted'
+        rows = played['rows']
+        if len(rows) != len(jobs):
+            return f'{len(jobs)} jobs submitted, {len(rows)} rows stored'
+        fulls = self._bunch_fulls(c, played)
+        if len(fulls) != len(jobs):
+            return f'{len(jobs)} jobs submitted, {len(fulls)} full specs stored'
+        v = c['v']
+        sys_names = {'u1-gsa-key', 'u1-tokens', 'ssl-config-batch-user-code'}
+        for i, (job, row, full, reg, line) in enumerate(zip(jobs, rows, fulls, out[0].split(';'), out[1:]), start=1):
+            who = f'job {i} of the bunch (format version {v})'
+            # (a) the region set is recovered exactly from the stored bitset; NULL = no preference
+            n_reg, _bits, dec = reg.split('/', 2)
+            want = job.get('regions')
+            if want is None:
+                if reg != '-/-/n':
+                    return (f'{who} has no `regions` key but is stored with n_regions={n_reg}, regions_bits_rep={_bits}, which decodes to '
+                            f'{self._uncanon_list(dec)} — regions it never selected (submitted regions of the bunch: '
+                            f'{[j.get("regions") for j in jobs]})')
+            else:
+                exp = canon([r for r in sorted(set(want), key=lambda r: dict(self.REGIONS)[r])])
+                if dec != exp or n_reg != str(len(want)):
+                    return f'{who} selected regions {want} but its row (n_regions={n_reg}, bits={_bits}) decodes to {self._uncanon_list(dec)}'
+            # (b) the compact form in the row yields back the fields of the job's full spec
+            got = dict(kv.split('=', 1) for kv in line.split(' '))
+            exp = self.expected(v, full)
+            for key in ('secrets', 'sa', 'in', 'out', 'ms'):
+                if got[key] != exp[key]:
+                    return f'{who}: {self.NAMES[key]}(stored spec) differs from the full spec of that job (field {key})'
+            # (c) the full spec carries this job's own submitted fields
+            sub_secrets = job.get('secrets') or []
+            fsec = full.get('secrets') or []
+            if fsec[:len(sub_secrets)] != sub_secrets or any(x.get('name') not in sys_names for x in fsec[len(sub_secrets):]) \
+                    or len(fsec) != len(sub_secrets) + 1 + (2 if job.get('mount_tokens') else 0):
+                return f'{who} submitted secrets {sub_secrets} but is stored with {fsec}'
+            for key in ('service_account', 'input_files', 'output_files', 'regions'):
+                if full.get(key) != job.get(key):
+                    return f'{who} submitted {key}={job.get(key)!r} but is stored with {full.get(key)!r}'
+            fres, jres = full.get('resources') or {}, job.get('resources') or {}
+            if fres.get('machine_type') != jres.get('machine_type') or fres.get('preemptible') != jres.get('preemptible', True):
+                return (f'{who} submitted machine_type={jres.get("machine_type")!r}, preemptible={jres.get("preemptible", True)} but is stored '
+                        f'with {fres.get("machine_type")!r}, {fres.get("preemptible")!r}')
+        return None
+
+    @staticmethod
+    def _uncanon_list(dec):
+        if dec in ('n', 'err'):
+            return {'n': None, 'err': '<error>'}[dec]
+        return [''.join(chr(int(h, 16)) for h in x[2:].split('.')) for x in dec[1:-1].split(',') if x]
+
     def oracle(self, c, out):
         if out and out[0].startswith('IMPL-EXC'):
             return out[0]
+        if c['k'] == 'bunch':
+            return self._oracle_bunch(c, out)
         if c['k'] == 'spec':
             for v, line in zip(c['versions'], out):
                 got = dict(kv.split('=', 1) for kv in line.split(' '))
@@ -334,6 +579,18 @@ class C15(Prop):
         return None
 
     def classify(self, c, out):
+        if c['k'] == 'bunch':
+            regs = [j.get('regions') is not None for j in c['jobs']]
+            tags = [f'bunch-jobs={min(len(regs), 4)}{"+" if len(regs) > 4 else ""}', 'bunch=' + ('rejected' if out[0] == 'rejected' else 'stored'),
+                    'bunch-regions=' + ('none' if not any(regs) else 'all' if all(regs) else 'mixed'), f'bunch-format={c["v"]}',
+                    'bunch-user=' + c['user']]
+            if any(a and not b for a, b in zip(regs, regs[1:])) or any(regs[i] and not regs[k] for i in range(len(regs)) for k in range(i + 1, len(regs))):
+                tags.append('bunch:regions-then-no-regions')
+            if any(j.get('secrets') for j in c['jobs']) and any(not j.get('secrets') for j in c['jobs']):
+                tags.append('bunch:secrets-mixed')
+            if any((j.get('resources') or {}).get('machine_type') for j in c['jobs']) and len(c['jobs']) > 1:
+                tags.append('bunch:machine-type')
+            return (json.dumps(c, sort_keys=True) if len(c['jobs']) > 1 and out[0] != 'rejected' else None, tags)
         if c['k'] == 'spec':
             s = c['spec']
             sec = s.get('secrets')
@@ -362,6 +619,38 @@ class C15(Prop):
 
     def shrink(self, c, fails):
         cur = json.loads(json.dumps(c))
+        if cur['k'] == 'bunch':
+            def renumber(jobs):
+                return [{**j, 'job_id': k} for k, j in enumerate(jobs, start=1)]
+            changed = True
+            while changed and len(cur['jobs']) > 1:
+                changed = False
+                for i in range(len(cur['jobs'])):
+                    cand = {**cur, 'jobs': renumber(cur['jobs'][:i] + cur['jobs'][i + 1:])}
+                    if fails(cand):
+                        cur, changed = cand, True
+                        break
+            for i in range(len(cur['jobs'])):
+                for key in ('secrets', 'service_account', 'mount_tokens', 'input_files', 'output_files', 'attributes', 'regions'):
+                    if key in cur['jobs'][i]:
+                        cand = json.loads(json.dumps(cur))
+                        del cand['jobs'][i][key]
+                        if fails(cand):
+                            cur = cand
+                if 'regions' in cur['jobs'][i] and len(cur['jobs'][i]['regions']) > 1:
+                    cand = json.loads(json.dumps(cur))
+                    cand['jobs'][i]['regions'] = cand['jobs'][i]['regions'][:1]
+                    if fails(cand):
+                        cur = cand
+                cand = json.loads(json.dumps(cur))
+                cand['jobs'][i]['resources'] = {'cpu': '1', 'memory': 'standard', 'storage': '0'}
+                if fails(cand):
+                    cur = cand
+            for alt in ({'user': 'u1'}, {'v': self.current}):
+                cand = {**cur, **alt}
+                if fails(cand):
+                    cur = cand
+            return cur
         if cur['k'] == 'spec':
             for v in list(cur['versions']):
                 if len(cur['versions']) > 1 and fails({**cur, 'versions': [v]}):
